@@ -102,6 +102,7 @@ let eval_stream (stream : string) (case : string) (impl : string) : verdict =
   | "parse" -> let (model, fails) = Parse_o.eval_parse case impl in { model; fails }
   | "prefix" -> let (model, fails) = Parse_o.eval_prefix case impl in { model; fails }
   | "grammar" -> let (model, fails) = Parse_o.eval_grammar case impl in { model; fails }
+  | "body" -> let (model, fails) = Body_o.eval case impl in { model; fails }
   | s -> failwith ("unknown stream " ^ s)
 
 let () =
